@@ -149,11 +149,16 @@ def cases(rng, tier):
                     c["dispose"] = None
         if c["cut"] is None and rng.random() < 0.1 and not any(sp.get("mode") == "sync" for sp in c.get("srcs", [])):
             c["cut"] = rng.choice([1, 2, 3])
+        if op in ("concat", "ops_concat", "catch", "oern") and not c.get("inline") and c.get("srcs"):
+            cc.add_duplicate(rng, c["srcs"])      # the same observable object listed twice
+            if op == "oern":
+                c["alt"] = [None if ("same_as" in c["srcs"][j] or any(s2.get("same_as") == j for s2 in c["srcs"])) else a
+                            for j, a in enumerate(c["alt"])]
         # unlogged failing sources (`rx.throw(ex)`) inside the source list: concat ends with their error, catch / on_error_resume_next
         # continue over them (item kind `fail`)
         if op in ("concat", "catch", "oern") and not c.get("inline") and c.get("srcs") and rng.random() < 0.2:
             for j in range(len(c["srcs"])):
-                if rng.random() < 0.4:
+                if rng.random() < 0.4 and "same_as" not in c["srcs"][j] and not any(s2.get("same_as") == j for s2 in c["srcs"]):
                     c["srcs"][j] = {"mode": "throw", "err": f"t{j}"}
             if op == "oern":
                 c["factory"] = [f and c["srcs"][j]["mode"] != "throw" for j, f in enumerate(c["factory"])]
@@ -164,7 +169,8 @@ def cases(rng, tier):
         # (catch(handler): the handler's sequence is installed from inside the source's subscribe call)
         if op in LIST_OPS and not c.get("inline") and c.get("srcs") and rng.random() < (0.45 if op == "catch_handler" else 0.15):
             base = 1 if op == "start_with" else 0
-            js = [0] if op == "catch_handler" else [j for j in range(len(c["srcs"])) if rng.random() < 0.6 and c["srcs"][j]["mode"] != "throw"]
+            js = [0] if op == "catch_handler" else [j for j in range(len(c["srcs"])) if rng.random() < 0.6 and c["srcs"][j]["mode"] != "throw"
+                                                     and "same_as" not in c["srcs"][j] and not any(s2.get("same_as") == j for s2 in c["srcs"])]
             for j in js:
                 p_c, p_e = {"concat": (0.8, 0.15), "catch": (0.15, 0.8), "oern": (0.5, 0.5)}[kind]
                 c["srcs"][j] = {"mode": "sync", "msgs": cc.gen_timeline(rng, base + j, maxn=2, span=5, p_complete=p_c, p_error=p_e)}
@@ -199,8 +205,8 @@ def world_and_build(case):
     def build():
         if op in LIST_OPS:
             base = 1 if op == "start_with" else 0
-            srcs = [rx.throw(InjectedError(s["err"])) if s["mode"] == "throw" else cc.make_src(w, base + j, s)
-                    for j, s in enumerate(case["srcs"])]
+            built = cc.build_sources(w, [dict(s_, mode="cold", msgs=[]) if s_["mode"] == "throw" else s_ for s_ in case["srcs"]], base)
+            srcs = [rx.throw(InjectedError(s["err"])) if s["mode"] == "throw" else built[j] for j, s in enumerate(case["srcs"])]
         if op == "concat":
             return rx.concat(*srcs)
         if op == "ops_concat":
@@ -553,6 +559,8 @@ def bucket(case, out):
         modes = [sp["mode"] for sp in case["srcs"]]
         if any(a == "sync" and b != "sync" for a, b in zip(modes, modes[1:])) or (case["op"] == "start_with" and modes and modes[0] != "sync"):
             yield "inline_sync_then_running"
+    if any("same_as" in sp for sp in case.get("srcs", [])):
+        yield "same_object_listed_twice"
     for sp in case.get("srcs", []):
         yield "src=" + sp["mode"]
     if "count" in case:
